@@ -1,9 +1,11 @@
 package checks
 
 import (
+	"bytes"
 	"fmt"
 	"github.com/trustbloc/sidetree-go/pkg/versions/1_0/doccomposer"
 	"github.com/trustbloc/sidetree-go/pkg/versions/1_0/operationapplier"
+	"strconv"
 
 	"github.com/trustbloc/sidetree-go/pkg/api/protocol"
 	"github.com/trustbloc/sidetree-go/pkg/versions/1_0/operationparser"
@@ -108,6 +110,17 @@ func c09Grid(delta int64) []gridPoint {
 		}
 		pts = append(pts, gridPoint{from: -delta, until: 0, t: 0, untilClass: "neg-from-default-until-zero", tClass: "zero"})
 	}
+	// bounds one beyond what a double can tell apart (2^53 + 1, 2^53 + 3, 2^62 + 1): the comparison is one of integers
+	for _, b := range []int64{1 << 53, 1 << 62} {
+		for _, n := range []struct {
+			from, until int64
+			t           uint64
+			c           string
+		}{{b + 1, 0, uint64(b), "from-1"}, {b + 1, 0, uint64(b) + 1, "from"}, {b + 1, b + 3, uint64(b) + 3, "until"}, {b + 1, b + 3, uint64(b) + 4, "until+1"},
+			{c09A, b + 3, uint64(b) + 4, "until+1"}, {c09A, b + 3, uint64(b) + 2, "until-1"}, {b - 1, b + 1, uint64(b) + 2, "until+1"}, {b + 3, b + 5, uint64(b) + 2, "from-1"}} {
+			pts = append(pts, gridPoint{from: n.from, until: n.until, t: n.t, untilClass: "beyond-double-precision", tClass: n.c})
+		}
+	}
 	// no bounds at all: effective at every anchoring time, up to the largest the field can hold
 	for _, t := range []uint64{1 << 62, 1<<63 - 1, 1 << 63, 1<<63 + 5, 1<<64 - 1} {
 		pts = append(pts, gridPoint{from: 0, until: 0, t: t, untilClass: "none", tClass: "huge"})
@@ -140,6 +153,24 @@ func c09Run(c *fw.Case, typ byte, keyType string, proto protocol.Protocol, g gri
 	c.Sig(typ, delta, g.from != 0, g.from < 0, g.untilClass, g.tClass, in)
 	plan := []planEntry{{'c', "valid", nil}, {typ, fmt.Sprintf("window[from=%d,until=%d,t=%d,D=%d]", g.from, g.until, g.t, delta), func(h *histCtx, s *opStep) {
 		s.Spec.AnchorFrom, s.Spec.AnchorUntil = g.from, g.until
+		// integers beyond 2^53 are no doubles: their exact digits are written into the serialized payload in place of stand-ins
+		const big = int64(1) << 53
+		if g.from > big || g.from < -big {
+			s.Spec.AnchorFrom = 1234567890123
+			s.Spec.RawPayload = func(b []byte) []byte {
+				return bytes.Replace(b, []byte(`"anchorFrom":1234567890123`), []byte(`"anchorFrom":`+strconv.FormatInt(g.from, 10)), 1)
+			}
+		}
+		if g.until > big || g.until < -big {
+			s.Spec.AnchorUntil = 1234567890124
+			inner := s.Spec.RawPayload
+			s.Spec.RawPayload = func(b []byte) []byte {
+				if inner != nil {
+					b = inner(b)
+				}
+				return bytes.Replace(b, []byte(`"anchorUntil":1234567890124`), []byte(`"anchorUntil":`+strconv.FormatInt(g.until, 10)), 1)
+			}
+		}
 		s.Anchor.Time = g.t
 		s.Facts.InWindow = in
 	}}}
